@@ -469,4 +469,58 @@ class PrioH(_Arr):
         return {"violated": violated, "detail": {"input": w["e"], "axis": ax, "prio": pr, "rank": rk}}
 
 
-HARNESSES = [RankingH(), PrioH(), ShadowH(), CompressH()]
+class Prio1DH(_Arr):
+    """ndint_compress(method='prio' | 'rank') on a 1-D array with an explicit axis=0 (its own branch in the source): an
+    order-preserving ranking with ties kept -- r_i < r_j exactly when v_i < v_j, hence r_i == r_j exactly when v_i == v_j."""
+    name = "integer_ndarray.ndint_compress(prio,rank;1-D,axis=0)"
+    function = "integer_ndarray.ndint_compress"
+    functions = ["integer_ndarray.ndint_compress", "integer_ndarray.ranking"]
+
+    def cases(self):
+        return [{"n": 2}, {"n": 3}]
+
+    def setup(self, c, case):
+        pnd = c.repo.load("puan.ndarray")
+        e = [SInt(z3.Int(f"e{j}")) for j in range(case["n"])]
+        for x in e:
+            c.assume_global(z3.And(x.t > -(2 ** 31), x.t < 2 ** 31))
+        return {"e": e, "mk": lambda: pnd.integer_ndarray(list(e))}
+
+    def run(self, c, st):
+        self.begin_call(c)
+        prio = st["mk"]().ndint_compress(method="prio", axis=0)
+        c.nd_epoch += 1
+        rank = st["mk"]().ndint_compress(method="rank", axis=0)
+        return {"prio": prio.tolist(), "rank": rank.tolist()}
+
+    def ensures(self, c, st, res):
+        e, n = st["e"], len(st["e"])
+        out = []
+        for m in ("prio", "rank"):
+            r = res[m]
+            ok = len(r) == n
+            if ok:
+                for i in range(n):
+                    for j in range(n):
+                        if i != j:
+                            ok = band(ok, (r[i] < r[j]) == (e[i] < e[j]))
+            out.append((f"{m}1d.order-preserving", ok))
+        return out
+
+    def concretise(self, case, k, model, c, st):
+        from .common import _mv
+        return {"case": dict(case), "e": [_mv(model, x.t) for x in st["e"]]}
+
+    def replay(self, w):
+        import puan.ndarray as pnd
+        v = [int(x) for x in w["e"]]
+        violated, detail = [], {"array": v}
+        for m in ("prio", "rank"):
+            r = [int(x) for x in pnd.integer_ndarray(list(v)).ndint_compress(method=m, axis=0).tolist()]
+            detail[m] = r
+            if len(r) != len(v) or any((r[i] < r[j]) != (v[i] < v[j]) for i in range(len(v)) for j in range(len(v)) if i != j):
+                violated.append(f"{m}1d.order-preserving")
+        return {"violated": violated, "detail": detail}
+
+
+HARNESSES = [RankingH(), PrioH(), Prio1DH(), ShadowH(), CompressH()]
